@@ -127,7 +127,7 @@ class _Probe:
         return True
 
 
-def gen_program(rng):
+def gen_program(rng, winddown=False):
     T = rng.randint(6, 14)
     dates, kind = R.gen_index(rng, T, rng.choice(["D", "B"]))
     n = rng.randint(2, 4)
@@ -153,8 +153,8 @@ def gen_program(rng):
             "weights": ws, "sched": rng.choice(["RunDaily", "RunWeekly", "RunOnce", "RunEveryNPeriods"]),
             "integer": rng.random() < 0.5, "comm": rng.choice([[0, 0, 0], [0, 0, 0], [3, 0, 0.001], [1, 1.0, 0]]),
             "bidoffer": rng.random() < 0.3}
-    if rng.random() < 0.3:
-        # a wind-down: the scheduled notional is exactly 0 for a stretch (the book is closed), sometimes built up again afterwards
+    if winddown and rng.random() < 0.3:
+        # a wind-down (a return on a zero notional base is refused by the engine - C10's zero-base class - so only where asked for): the scheduled notional is exactly 0 for a stretch (the book is closed), sometimes built up again afterwards
         i = rng.randint(1, T - 1)
         j = rng.randint(i, T - 1)
         for k in range(i, j + 1):
@@ -231,7 +231,7 @@ def run(ctx, bt):
                         spec_mutator=_G.carry_open_close, corr_name="step[C17]:carry-open-close")
     run_engine_protocol(ctx, bt, ctx.scale(90, 1000), [Monitor(ctx)], FOOT_FIELDS, None, spec_kwargs={"fi_tree": True}, corr_name="step[C17]")
     for _ in range(ctx.scale(80, 1500)):
-        spec = gen_program(ctx.rng)
+        spec = gen_program(ctx.rng, winddown=True)
         ctx.evaluations += 1
         run_program(ctx, bt, spec)
     _run_steps(ctx, bt)
@@ -248,7 +248,7 @@ def search(ctx, bt):
         return
     run_engine_protocol(ctx, bt, ctx.scale(400, 2500), [Monitor(ctx)], FOOT_FIELDS, None, spec_kwargs={"fi_tree": True}, corr_name="step[C17]:search")
     for _ in range(ctx.scale(400, 3000)):
-        spec = gen_program(ctx.rng)
+        spec = gen_program(ctx.rng, winddown=True)
         ctx.evaluations += 1
         run_program(ctx, bt, spec)
 
